@@ -126,6 +126,22 @@ theorem tabInsert_frame (w : World Feature) (s : MSeq) (f : Feature) : Frame w (
 theorem filter_frame (p : Feature → Bool) (w : World Feature) (s : MSeq) : Frame w (filterSeq p w s).2 :=
   ⟨List.prefix_refl _, (tabFilter_frame _ (List.prefix_refl _) _).1⟩
 
+/-- `WithFeatures` / `WithBytes` / `WithInfo` / `Copy`: the world is literally the same -/
+theorem with_frame (w : World Feature) (s : MSeq) (x : Slice) :
+    (withFeaturesSeq w s x).2 = w ∧ (withBytesSeq w s x).2 = w ∧ (copySeq w s).2 = w := ⟨rfl, rfl, rfl⟩
+
+/-- `Repair` works on a copy of the table: whatever it stores where, the argument's table array
+(and every other array) is unchanged -/
+theorem repair_frame {φ : Type} [Inhabited φ] (h : Heap φ) (ff : Slice) (stores : List (Nat × φ)) (keep : Nat) :
+    h <+: (repairMem h ff stores keep).2 := by
+  have c := tabCopy_frame (List.prefix_refl h) ff
+  unfold repairMem
+  simp only []
+  generalize (tabCopy h ff).2 = h1 at c
+  induction stores generalizing h1 with
+  | nil => exact c.1
+  | cons st stores ih => exact ih _ ⟨frame_store c.1 c.2 _ _, c.2⟩
+
 /-- **FRAME for every operation**, no hypothesis: whatever the heap, the slice headers (spare
 capacity, sub-slices, shared tables, even ill-formed ones), the indices and the capacity policy,
 no array that existed before the call is changed by it -/
@@ -721,6 +737,8 @@ def world (k : Nat) : World Feature :=
 def theSeq (k : Nat) : MSeq := ⟨⟨0, 0, 2, 2 + k⟩, ⟨0, 0, 10, 10 + k⟩⟩
 /-- a guest `NN` without features -/
 def theGuest : MSeq := ⟨Slice.nil, ⟨1, 0, 2, 2⟩⟩
+/-- a guest `N` (the first residue of the same buffer) -/
+def theGuest1 : MSeq := ⟨Slice.nil, ⟨1, 0, 1, 2⟩⟩
 
 /-- a decidable observation of a table cell (`Loc` has no `DecidableEq`): which of the three
 locations present in `world k` it holds, or none of them -/
@@ -745,13 +763,13 @@ theorem delete_old_breaks_frame : ∀ k ∈ [0, 1, 2, 3],
   exact fun k hk => not_frame_of_tab (key k hk)
 
 /-- pre-repair `Insert` (4effce8 reverted), sequence level: the host's buffer is overwritten as
-soon as the spare capacity holds the guest -/
-theorem insert_old_breaks_frame : ∀ k ∈ [2, 3],
-    ¬ Frame (world k) (spliceSeqOld (fun _ _ => 0) (fun l => l.shift 4 2) (fun l => l.expand 0 4)
-      (world k) (theSeq k) 4 theGuest).2 := by
-  have key : ∀ k ∈ [2, 3], 0 < (world k).B.length ∧
-      (spliceSeqOld (fun _ _ => 0) (fun l => l.shift 4 2) (fun l => l.expand 0 4)
-        (world k) (theSeq k) 4 theGuest).2.B.get 0 ≠ (world k).B.get 0 := by decide
+soon as the spare capacity holds the guest (spare 1, 2, 3 with a one-residue guest) -/
+theorem insert_old_breaks_frame : ∀ k ∈ [1, 2, 3],
+    ¬ Frame (world k) (spliceSeqOld (fun _ _ => 0) (fun l => l.shift 4 1) (fun l => l.expand 0 4)
+      (world k) (theSeq k) 4 theGuest1).2 := by
+  have key : ∀ k ∈ [1, 2, 3], 0 < (world k).B.length ∧
+      (spliceSeqOld (fun _ _ => 0) (fun l => l.shift 4 1) (fun l => l.expand 0 4)
+        (world k) (theSeq k) 4 theGuest1).2.B.get 0 ≠ (world k).B.get 0 := by decide
   exact fun k hk => not_frame_of_buf (key k hk)
 
 /-- pre-repair `Rotate` (e795ac6 reverted), sequence level -/
@@ -763,18 +781,18 @@ theorem rotate_old_breaks_frame : ∀ k ∈ [1, 2, 3],
 
 /-- pre-repair `Concat` (e795ac6 reverted), sequence level: the cells behind the head's residues
 are overwritten -/
-theorem concat_old_breaks_frame : ∀ k ∈ [2, 3],
-    ¬ Frame (world k) (concatSeqOld (fun _ _ => 0) (world k) [theSeq k, theGuest]).2 := by
-  have key : ∀ k ∈ [2, 3], 0 < (world k).B.length ∧
-      (concatSeqOld (fun _ _ => 0) (world k) [theSeq k, theGuest]).2.B.get 0 ≠ (world k).B.get 0 := by
+theorem concat_old_breaks_frame : ∀ k ∈ [1, 2, 3],
+    ¬ Frame (world k) (concatSeqOld (fun _ _ => 0) (world k) [theSeq k, theGuest1]).2 := by
+  have key : ∀ k ∈ [1, 2, 3], 0 < (world k).B.length ∧
+      (concatSeqOld (fun _ _ => 0) (world k) [theSeq k, theGuest1]).2.B.get 0 ≠ (world k).B.get 0 := by
     decide
   exact fun k hk => not_frame_of_buf (key k hk)
 
 /-- pre-repair `Concat` with the pre-repair `ff.Insert` (d065452 reverted): concatenating a
 sequence with itself shifts the head's table in place when it has spare capacity -/
-theorem concat_old_breaks_table : ∀ k ∈ [2, 3],
+theorem concat_old_breaks_table : ∀ k ∈ [1, 2, 3],
     ¬ Frame (world k) (concatSeqOld (fun _ _ => 0) (world k) [theSeq k, theSeq k]).2 := by
-  have key : ∀ k ∈ [2, 3], 0 < (world k).T.length ∧
+  have key : ∀ k ∈ [1, 2, 3], 0 < (world k).T.length ∧
       ((concatSeqOld (fun _ _ => 0) (world k) [theSeq k, theSeq k]).2.T.get 0).map obsLoc
         ≠ ((world k).T.get 0).map obsLoc := by decide
   exact fun k hk => not_frame_of_tab (key k hk)
